@@ -329,6 +329,7 @@ class Ctx:
             rc, text = self.tlc(module, cfg, env=e, workers=1, timeout=timeout, heap=heap, deque=True,
                                 tag=f"tv-{lo}-{start}")
             os.remove(part)
+            text = _unwrap_tuples(text)
             seen = set()
             for m in re.finditer(r'^<<"BAD", (\d+), (.*)>>\s*$', text, re.M):
                 ln = start + int(m.group(1)) - 1
@@ -376,6 +377,34 @@ class Ctx:
         reset = recs[resets[j]] if j >= 0 else {}
         return {"line": ln + 1, "ev": recs[ln].get("ev"), "case": recs[ln].get("case"), "why": why.strip(),
                 "rec": recs[ln], "reset": reset, "reset_line": resets[j] + 1 if j >= 0 else 0}
+
+
+def _unwrap_tuples(text):
+    """TLC's pretty printer wraps a printed tuple longer than 80 columns over several lines
+    (`<< "BAD",` / `   12,` / `   "..." >>`). Join such BAD / DRIFT / TRACE_STUCK_AT / CONSUMED tuples back into the
+    one-line form `<<"BAD", 12, "...">>` so that a long message can never hide a rejection."""
+    out = []
+    acc = None
+    depth = 0
+    for line in text.splitlines():
+        if acc is None:
+            if re.match(r'^<< "(BAD|DRIFT|TRACE_STUCK_AT|CONSUMED)",\s*$', line):
+                acc = [line.strip()]
+                depth = line.count("<<") - line.count(">>")
+                continue
+            out.append(line)
+            continue
+        acc.append(line.strip())
+        depth += line.count("<<") - line.count(">>")
+        if depth <= 0:
+            joined = " ".join(acc)
+            joined = re.sub(r'<<\s+', '<<', joined)
+            joined = re.sub(r'\s+>>', '>>', joined)
+            out.append(joined)
+            acc = None
+    if acc is not None:
+        out.append(" ".join(acc))
+    return "\n".join(out)
 
 
 def _parallel_map(fn, items):
